@@ -288,7 +288,8 @@ func c1Setup(w *W, pat c1Pair, addr string, limit int, lopts, dopts map[string]i
 
 func c01Sim(w *W) {
 	pat := c1Pairs[w.Choose(simrt.SShape, len(c1Pairs))]
-	tran := []string{"inproc", "sim", "simipc"}[w.Choose(simrt.SShape, 3)]
+	// tcp / ipc / tls+tcp: the real endpoint code on the simulated network
+	tran := []string{"inproc", "sim", "simipc", "tcp", "ipc", "tls+tcp"}[w.Choose(simrt.SShape, 6)]
 	limits := []int{1024 * 1024, 0, 100, 1000, 5000, 70000}
 	limit := limits[w.Choose(simrt.SShape, len(limits))]
 	big := w.Choose(simrt.SShape, 12) == 0
@@ -302,7 +303,8 @@ func c01Sim(w *W) {
 	w.SetShape("tran", tran)
 	w.SetShape("limit", limit)
 	w.SetShape("big", big)
-	a, b, ok := c1Setup(w, pat, w.Addr(tran), limit, nil, nil)
+	addr := w.Addr(tran)
+	a, b, ok := c1Setup(w, pat, addr, limit, w.EpOpts(addr, true, nil), w.EpOpts(addr, false, nil))
 	if !ok {
 		return
 	}
